@@ -15,6 +15,11 @@ pub mod c12;
 pub mod c13;
 pub mod c14;
 pub mod c15;
+pub mod c16;
+pub mod c17;
+pub mod c18;
+pub mod c19;
+pub mod c20;
 
 use crate::util::Ctx;
 
@@ -35,6 +40,11 @@ pub fn dispatch(ctx: &mut Ctx) -> bool {
         "C13" => c13::run(ctx),
         "C14" => c14::run(ctx),
         "C15" => c15::run(ctx),
+        "C16" => c16::run(ctx),
+        "C17" => c17::run(ctx),
+        "C18" => c18::run(ctx),
+        "C19" => c19::run(ctx),
+        "C20" => c20::run(ctx),
         _ => return false,
     }
     true
